@@ -48,12 +48,15 @@ func (g *Gengine) Execute(rb *builder.RuleBuilder, b bool) error {
 
 	g.returnResult = make(map[string]interface{})
 
-	if len(rb.Kc.SortRules) == 0 {
+	//take the rule container once: a concurrent update must not be seen halfway through this execution
+	kc := rb.Kc
+
+	if len(kc.SortRules) == 0 {
 		return errors.New("no rule has been injected into engine! ")
 	}
 
 	var eMsg []string
-	for _, r := range rb.Kc.SortRules {
+	for _, r := range kc.SortRules {
 		v, err, bx := r.Execute(rb.Dc)
 		if bx {
 			g.addResult(r.RuleName, v)
@@ -94,12 +97,15 @@ func (g *Gengine) ExecuteWithStopTagDirect(rb *builder.RuleBuilder, b bool, sTag
 
 	g.returnResult = make(map[string]interface{})
 
-	if len(rb.Kc.SortRules) == 0 {
+	//take the rule container once: a concurrent update must not be seen halfway through this execution
+	kc := rb.Kc
+
+	if len(kc.SortRules) == 0 {
 		return errors.New("no rule has been injected into engine! ")
 	}
 
 	var eMsg []string
-	for _, r := range rb.Kc.SortRules {
+	for _, r := range kc.SortRules {
 		v, err, bx := r.Execute(rb.Dc)
 		if bx {
 			g.addResult(r.RuleName, v)
@@ -137,7 +143,10 @@ func (g *Gengine) ExecuteConcurrent(rb *builder.RuleBuilder) error {
 
 	g.returnResult = make(map[string]interface{})
 
-	if len(rb.Kc.RuleEntities) == 0 {
+	//take the rule container once: a concurrent update must not be seen halfway through this execution
+	kc := rb.Kc
+
+	if len(kc.RuleEntities) == 0 {
 		return errors.New("no rule has been injected into engine! ")
 	}
 
@@ -145,8 +154,8 @@ func (g *Gengine) ExecuteConcurrent(rb *builder.RuleBuilder) error {
 	var eMsg []string
 
 	var wg sync.WaitGroup
-	wg.Add(len(rb.Kc.RuleEntities))
-	for _, r := range rb.Kc.RuleEntities {
+	wg.Add(len(kc.RuleEntities))
+	for _, r := range kc.RuleEntities {
 		rr := r
 		go func() {
 			v, e, bx := rr.Execute(rb.Dc)
@@ -184,11 +193,14 @@ func (g *Gengine) ExecuteMixModel(rb *builder.RuleBuilder) error {
 
 	g.returnResult = make(map[string]interface{})
 
-	if len(rb.Kc.SortRules) == 0 {
+	//take the rule container once: a concurrent update must not be seen halfway through this execution
+	kc := rb.Kc
+
+	if len(kc.SortRules) == 0 {
 		return errors.New("no rule has been injected into engine! ")
 	}
 
-	rules := rb.Kc.SortRules
+	rules := kc.SortRules
 	v, e, bx := rules[0].Execute(rb.Dc)
 	if bx {
 		g.addResult(rules[0].RuleName, v)
@@ -250,11 +262,14 @@ func (g *Gengine) ExecuteMixModelWithStopTagDirect(rb *builder.RuleBuilder, sTag
 
 	g.returnResult = make(map[string]interface{})
 
-	if len(rb.Kc.SortRules) == 0 {
+	//take the rule container once: a concurrent update must not be seen halfway through this execution
+	kc := rb.Kc
+
+	if len(kc.SortRules) == 0 {
 		return errors.New("no rule has been injected into engine! ")
 	}
 
-	rules := rb.Kc.SortRules
+	rules := kc.SortRules
 	v, e, bx := rules[0].Execute(rb.Dc)
 	if bx {
 		g.addResult(rules[0].RuleName, v)
@@ -307,13 +322,16 @@ func (g *Gengine) ExecuteSelectedRules(rb *builder.RuleBuilder, names []string) 
 
 	g.returnResult = make(map[string]interface{})
 
-	if len(rb.Kc.RuleEntities) == 0 {
+	//take the rule container once: a concurrent update must not be seen halfway through this execution
+	kc := rb.Kc
+
+	if len(kc.RuleEntities) == 0 {
 		return errors.New("no rule has been injected into engine! ")
 	}
 
 	var rules []*base.RuleEntity
 	for _, name := range names {
-		if ruleEntity, ok := rb.Kc.RuleEntities[name]; ok {
+		if ruleEntity, ok := kc.RuleEntities[name]; ok {
 			rr := ruleEntity
 			rules = append(rules, rr)
 		} else {
@@ -362,13 +380,16 @@ func (g *Gengine) ExecuteSelectedRulesWithControl(rb *builder.RuleBuilder, b boo
 
 	g.returnResult = make(map[string]interface{})
 
-	if len(rb.Kc.SortRules) == 0 {
+	//take the rule container once: a concurrent update must not be seen halfway through this execution
+	kc := rb.Kc
+
+	if len(kc.SortRules) == 0 {
 		return errors.New("no rule has been injected into engine! ")
 	}
 
 	var rules []*base.RuleEntity
 	for _, name := range names {
-		if ruleEntity, ok := rb.Kc.RuleEntities[name]; ok {
+		if ruleEntity, ok := kc.RuleEntities[name]; ok {
 			rr := ruleEntity
 			rules = append(rules, rr)
 		} else {
@@ -423,13 +444,16 @@ func (g *Gengine) ExecuteSelectedRulesWithControlAsGivenSortedName(rb *builder.R
 
 	g.returnResult = make(map[string]interface{})
 
-	if len(rb.Kc.SortRules) == 0 {
+	//take the rule container once: a concurrent update must not be seen halfway through this execution
+	kc := rb.Kc
+
+	if len(kc.SortRules) == 0 {
 		return errors.New("no rule has been injected into engine! ")
 	}
 
 	var rules []*base.RuleEntity
 	for _, name := range sortedNames {
-		if ruleEntity, ok := rb.Kc.RuleEntities[name]; ok {
+		if ruleEntity, ok := kc.RuleEntities[name]; ok {
 			rr := ruleEntity
 			rules = append(rules, rr)
 		} else {
@@ -476,13 +500,16 @@ func (g *Gengine) ExecuteSelectedRulesWithControlAndStopTag(rb *builder.RuleBuil
 
 	g.returnResult = make(map[string]interface{})
 
-	if len(rb.Kc.SortRules) == 0 {
+	//take the rule container once: a concurrent update must not be seen halfway through this execution
+	kc := rb.Kc
+
+	if len(kc.SortRules) == 0 {
 		return errors.New("no rule has been injected into engine! ")
 	}
 
 	var rules []*base.RuleEntity
 	for _, name := range names {
-		if ruleEntity, ok := rb.Kc.RuleEntities[name]; ok {
+		if ruleEntity, ok := kc.RuleEntities[name]; ok {
 			rr := ruleEntity
 			rules = append(rules, rr)
 		} else {
@@ -541,13 +568,16 @@ func (g *Gengine) ExecuteSelectedRulesWithControlAndStopTagAsGivenSortedName(rb 
 
 	g.returnResult = make(map[string]interface{})
 
-	if len(rb.Kc.SortRules) == 0 {
+	//take the rule container once: a concurrent update must not be seen halfway through this execution
+	kc := rb.Kc
+
+	if len(kc.SortRules) == 0 {
 		return errors.New("no rule has been injected into engine! ")
 	}
 
 	var rules []*base.RuleEntity
 	for _, name := range sortedNames {
-		if ruleEntity, ok := rb.Kc.RuleEntities[name]; ok {
+		if ruleEntity, ok := kc.RuleEntities[name]; ok {
 			rr := ruleEntity
 			rules = append(rules, rr)
 		} else {
@@ -597,13 +627,16 @@ func (g *Gengine) ExecuteSelectedRulesConcurrent(rb *builder.RuleBuilder, names 
 
 	g.returnResult = make(map[string]interface{})
 
-	if len(rb.Kc.RuleEntities) == 0 {
+	//take the rule container once: a concurrent update must not be seen halfway through this execution
+	kc := rb.Kc
+
+	if len(kc.RuleEntities) == 0 {
 		return errors.New("no rule has been injected into engine! ")
 	}
 
 	var rules []*base.RuleEntity
 	for _, name := range names {
-		if ruleEntity, ok := rb.Kc.RuleEntities[name]; ok {
+		if ruleEntity, ok := kc.RuleEntities[name]; ok {
 			rr := ruleEntity
 			rules = append(rules, rr)
 		} else {
@@ -667,13 +700,16 @@ func (g *Gengine) ExecuteSelectedRulesMixModel(rb *builder.RuleBuilder, names []
 
 	g.returnResult = make(map[string]interface{})
 
-	if len(rb.Kc.RuleEntities) == 0 {
+	//take the rule container once: a concurrent update must not be seen halfway through this execution
+	kc := rb.Kc
+
+	if len(kc.RuleEntities) == 0 {
 		return errors.New("no rule has been injected into engine! ")
 	}
 
 	var rules []*base.RuleEntity
 	for _, name := range names {
-		if ruleEntity, ok := rb.Kc.RuleEntities[name]; ok {
+		if ruleEntity, ok := kc.RuleEntities[name]; ok {
 			rr := ruleEntity
 			rules = append(rules, rr)
 		} else {
@@ -759,7 +795,10 @@ func (g *Gengine) ExecuteInverseMixModel(rb *builder.RuleBuilder) error {
 
 	g.returnResult = make(map[string]interface{})
 
-	rules := rb.Kc.SortRules
+	//take the rule container once: a concurrent update must not be seen halfway through this execution
+	kc := rb.Kc
+
+	rules := kc.SortRules
 	length := len(rules)
 	if length == 0 {
 		return errors.New("no rule has been injected into engine! ")
@@ -820,10 +859,13 @@ func (g *Gengine) ExecuteSelectedRulesInverseMixModel(rb *builder.RuleBuilder, n
 
 	g.returnResult = make(map[string]interface{})
 
+	//take the rule container once: a concurrent update must not be seen halfway through this execution
+	kc := rb.Kc
+
 	var rules []*base.RuleEntity
 	//choose user need!
 	for _, name := range names {
-		if re, ok := rb.Kc.RuleEntities[name]; ok {
+		if re, ok := kc.RuleEntities[name]; ok {
 			rules = append(rules, re)
 		} else {
 			log.Errorf("no such rule named: \"%s\"", name)
@@ -899,6 +941,9 @@ func (g *Gengine) ExecuteNSortMConcurrent(nSort, mConcurrent int, rb *builder.Ru
 
 	g.returnResult = make(map[string]interface{})
 
+	//take the rule container once: a concurrent update must not be seen halfway through this execution
+	kc := rb.Kc
+
 	//strictly params check
 	if nSort <= 0 {
 		return errors.New(fmt.Sprintf("params should be bigger than 0, nSort=%d", nSort))
@@ -908,15 +953,15 @@ func (g *Gengine) ExecuteNSortMConcurrent(nSort, mConcurrent int, rb *builder.Ru
 		return errors.New(fmt.Sprintf("params should be bigger than 0, mConcurrent=%d", nSort))
 	}
 
-	if nSort+mConcurrent > len(rb.Kc.SortRules) {
-		return errors.New(fmt.Sprintf("not enough rules to complete N-M execute model, nSort+mConcurrent = %d, while rules.len=%d", nSort+mConcurrent, len(rb.Kc.SortRules)))
+	if nSort+mConcurrent > len(kc.SortRules) {
+		return errors.New(fmt.Sprintf("not enough rules to complete N-M execute model, nSort+mConcurrent = %d, while rules.len=%d", nSort+mConcurrent, len(kc.SortRules)))
 	}
 
 	var errLock sync.Mutex
 	var eMsg []string
 
 	//nSort
-	nRules := rb.Kc.SortRules[:nSort]
+	nRules := kc.SortRules[:nSort]
 	for _, rule := range nRules {
 		v, e, bx := rule.Execute(rb.Dc)
 		if bx {
@@ -932,7 +977,7 @@ func (g *Gengine) ExecuteNSortMConcurrent(nSort, mConcurrent int, rb *builder.Ru
 	}
 
 	//mConcurrent
-	mRules := rb.Kc.SortRules[nSort:][:mConcurrent]
+	mRules := kc.SortRules[nSort:][:mConcurrent]
 	var wg sync.WaitGroup
 	wg.Add(mConcurrent)
 	for _, r := range mRules {
@@ -971,6 +1016,9 @@ func (g *Gengine) ExecuteNConcurrentMSort(nConcurrent, mSort int, rb *builder.Ru
 
 	g.returnResult = make(map[string]interface{})
 
+	//take the rule container once: a concurrent update must not be seen halfway through this execution
+	kc := rb.Kc
+
 	//strictly params check
 	if nConcurrent <= 0 {
 		return errors.New(fmt.Sprintf("params should be bigger than 0, nConcurrent=%d", nConcurrent))
@@ -980,15 +1028,15 @@ func (g *Gengine) ExecuteNConcurrentMSort(nConcurrent, mSort int, rb *builder.Ru
 		return errors.New(fmt.Sprintf("params should be bigger than 0, mSort=%d", mSort))
 	}
 
-	if nConcurrent+mSort > len(rb.Kc.SortRules) {
-		return errors.New(fmt.Sprintf("not enough rules to complete N-M execute model, nConcurrent+mSort = %d, while rules.len=%d", nConcurrent+mSort, len(rb.Kc.SortRules)))
+	if nConcurrent+mSort > len(kc.SortRules) {
+		return errors.New(fmt.Sprintf("not enough rules to complete N-M execute model, nConcurrent+mSort = %d, while rules.len=%d", nConcurrent+mSort, len(kc.SortRules)))
 	}
 
 	var errLock sync.Mutex
 	var eMsg []string
 
 	//nConcurrent
-	nRules := rb.Kc.SortRules[:nConcurrent]
+	nRules := kc.SortRules[:nConcurrent]
 	var wg sync.WaitGroup
 	wg.Add(nConcurrent)
 	for _, r := range nRules {
@@ -1015,7 +1063,7 @@ func (g *Gengine) ExecuteNConcurrentMSort(nConcurrent, mSort int, rb *builder.Ru
 	}
 
 	//mSort
-	mRules := rb.Kc.SortRules[nConcurrent:][:mSort]
+	mRules := kc.SortRules[nConcurrent:][:mSort]
 	for _, rule := range mRules {
 		v, e, bx := rule.Execute(rb.Dc)
 		if bx {
@@ -1050,6 +1098,9 @@ func (g *Gengine) ExecuteNConcurrentMConcurrent(nConcurrent, mConcurrent int, rb
 
 	g.returnResult = make(map[string]interface{})
 
+	//take the rule container once: a concurrent update must not be seen halfway through this execution
+	kc := rb.Kc
+
 	//strictly params check
 	if nConcurrent <= 0 {
 		return errors.New(fmt.Sprintf("params should be bigger than 0, nConcurrent=%d", nConcurrent))
@@ -1059,15 +1110,15 @@ func (g *Gengine) ExecuteNConcurrentMConcurrent(nConcurrent, mConcurrent int, rb
 		return errors.New(fmt.Sprintf("params should be bigger than 0, mConcurrent=%d", mConcurrent))
 	}
 
-	if nConcurrent+mConcurrent > len(rb.Kc.SortRules) {
-		return errors.New(fmt.Sprintf("not enough rules to complete N-M execute model, nConcurrent+mConcurrent = %d, while rules.len=%d", nConcurrent+mConcurrent, len(rb.Kc.SortRules)))
+	if nConcurrent+mConcurrent > len(kc.SortRules) {
+		return errors.New(fmt.Sprintf("not enough rules to complete N-M execute model, nConcurrent+mConcurrent = %d, while rules.len=%d", nConcurrent+mConcurrent, len(kc.SortRules)))
 	}
 
 	var errLock sync.Mutex
 	var eMsg []string
 
 	//nConcurrent
-	nRules := rb.Kc.SortRules[:nConcurrent]
+	nRules := kc.SortRules[:nConcurrent]
 	var nwg sync.WaitGroup
 	nwg.Add(nConcurrent)
 	for _, r := range nRules {
@@ -1094,7 +1145,7 @@ func (g *Gengine) ExecuteNConcurrentMConcurrent(nConcurrent, mConcurrent int, rb
 	}
 
 	//mConcurrent
-	mRules := rb.Kc.SortRules[nConcurrent:][:mConcurrent]
+	mRules := kc.SortRules[nConcurrent:][:mConcurrent]
 	var mwg sync.WaitGroup
 	mwg.Add(mConcurrent)
 	for _, r := range mRules {
@@ -1135,6 +1186,9 @@ func (g *Gengine) ExecuteSelectedNSortMConcurrent(nSort, mConcurrent int, rb *bu
 
 	g.returnResult = make(map[string]interface{})
 
+	//take the rule container once: a concurrent update must not be seen halfway through this execution
+	kc := rb.Kc
+
 	//strictly params check
 	if nSort <= 0 {
 		return errors.New(fmt.Sprintf("params should be bigger than 0, nSort=%d", nSort))
@@ -1148,14 +1202,14 @@ func (g *Gengine) ExecuteSelectedNSortMConcurrent(nSort, mConcurrent int, rb *bu
 		return errors.New(fmt.Sprintf("selected rules' len should equals the nSort+mConcurrent, selected rules' len=%d, nSort+mConcurrent=%d", len(names), nSort+mConcurrent))
 	}
 
-	if nSort+mConcurrent > len(rb.Kc.SortRules) {
-		return errors.New(fmt.Sprintf("not enough selected rules to complete N-M execute model, nSort+mConcurrent = %d, while rules.len=%d", nSort+mConcurrent, len(rb.Kc.SortRules)))
+	if nSort+mConcurrent > len(kc.SortRules) {
+		return errors.New(fmt.Sprintf("not enough selected rules to complete N-M execute model, nSort+mConcurrent = %d, while rules.len=%d", nSort+mConcurrent, len(kc.SortRules)))
 	}
 
 	//selected based on names
 	var rules []*base.RuleEntity
 	for _, v := range names {
-		if rule, ok := rb.Kc.RuleEntities[v]; ok {
+		if rule, ok := kc.RuleEntities[v]; ok {
 			rules = append(rules, rule)
 		} else {
 			return errors.New(fmt.Sprintf("not exist rule:%s", v))
@@ -1228,6 +1282,9 @@ func (g *Gengine) ExecuteSelectedNConcurrentMSort(nConcurrent, mSort int, rb *bu
 
 	g.returnResult = make(map[string]interface{})
 
+	//take the rule container once: a concurrent update must not be seen halfway through this execution
+	kc := rb.Kc
+
 	//strictly params check
 	if nConcurrent <= 0 {
 		return errors.New(fmt.Sprintf("params should be bigger than 0, nConcurrent=%d", nConcurrent))
@@ -1241,14 +1298,14 @@ func (g *Gengine) ExecuteSelectedNConcurrentMSort(nConcurrent, mSort int, rb *bu
 		return errors.New(fmt.Sprintf("selected rules' len should equals the nConcurrent+mSort, selected rules' len=%d, nConcurrent+mSort=%d", len(names), nConcurrent+mSort))
 	}
 
-	if nConcurrent+mSort > len(rb.Kc.SortRules) {
-		return errors.New(fmt.Sprintf("not enough selected rules to complete N-M execute model, nConcurrent+mSort = %d, while rules.len=%d", nConcurrent+mSort, len(rb.Kc.SortRules)))
+	if nConcurrent+mSort > len(kc.SortRules) {
+		return errors.New(fmt.Sprintf("not enough selected rules to complete N-M execute model, nConcurrent+mSort = %d, while rules.len=%d", nConcurrent+mSort, len(kc.SortRules)))
 	}
 
 	//selected based on names
 	var rules []*base.RuleEntity
 	for _, v := range names {
-		if rule, ok := rb.Kc.RuleEntities[v]; ok {
+		if rule, ok := kc.RuleEntities[v]; ok {
 			rules = append(rules, rule)
 		} else {
 			return errors.New(fmt.Sprintf("not exist rule:%s", v))
@@ -1327,6 +1384,9 @@ func (g *Gengine) ExecuteSelectedNConcurrentMConcurrent(nConcurrent, mConcurrent
 
 	g.returnResult = make(map[string]interface{})
 
+	//take the rule container once: a concurrent update must not be seen halfway through this execution
+	kc := rb.Kc
+
 	//strictly params check
 	if nConcurrent <= 0 {
 		return errors.New(fmt.Sprintf("params should be bigger than 0, nConcurrent=%d", nConcurrent))
@@ -1340,14 +1400,14 @@ func (g *Gengine) ExecuteSelectedNConcurrentMConcurrent(nConcurrent, mConcurrent
 		return errors.New(fmt.Sprintf("selected rules' len should equals the nConcurrent+mConcurrent, selected rules' len=%d, nConcurrent+mConcurrent=%d", len(names), nConcurrent+mConcurrent))
 	}
 
-	if nConcurrent+mConcurrent > len(rb.Kc.SortRules) {
-		return errors.New(fmt.Sprintf("not enough selected rules to complete N-M execute model, nConcurrent+mConcurrent = %d, while rules.len=%d", nConcurrent+mConcurrent, len(rb.Kc.SortRules)))
+	if nConcurrent+mConcurrent > len(kc.SortRules) {
+		return errors.New(fmt.Sprintf("not enough selected rules to complete N-M execute model, nConcurrent+mConcurrent = %d, while rules.len=%d", nConcurrent+mConcurrent, len(kc.SortRules)))
 	}
 
 	//selected based on names
 	var rules []*base.RuleEntity
 	for _, v := range names {
-		if rule, ok := rb.Kc.RuleEntities[v]; ok {
+		if rule, ok := kc.RuleEntities[v]; ok {
 			rules = append(rules, rule)
 		} else {
 			return errors.New(fmt.Sprintf("not exist rule:%s", v))
@@ -1427,6 +1487,9 @@ func (g *Gengine) ExecuteDAGModel(rb *builder.RuleBuilder, dag [][]string) error
 
 	g.returnResult = make(map[string]interface{})
 
+	//take the rule container once: a concurrent update must not be seen halfway through this execution
+	kc := rb.Kc
+
 	//check params
 	if len(dag) == 0 {
 		return nil
@@ -1441,7 +1504,7 @@ func (g *Gengine) ExecuteDAGModel(rb *builder.RuleBuilder, dag [][]string) error
 		var rules []*base.RuleEntity
 		for j := 0; j < len(dag[i]); j++ {
 			//filter the rules which do not exist.
-			if rule, ok := rb.Kc.RuleEntities[dag[i][j]]; ok {
+			if rule, ok := kc.RuleEntities[dag[i][j]]; ok {
 				rules = append(rules, rule)
 			}
 		}
